@@ -151,6 +151,7 @@ EXTRA_MODULES = {
     "C09": ["Pdt.Props.C09Scope"],
     "C05": ["Pdt.Props.Lemmas.Sort", "Pdt.Props.Lemmas.Partition", "Pdt.Props.Lemmas.KeyOrder"],
     "C04": ["Pdt.Props.Lemmas.Partition", "Pdt.Props.C04Filter"],
+    "C07": ["Pdt.Props.C07Sql"],
 }
 
 
